@@ -192,11 +192,21 @@ class Harness:
                 if roe is not None:
                     kw["reset_on_error"] = roe
                 entered = False
+                self.n_req = getattr(self, "n_req", 0) + 1
                 try:
-                    with self.ctx.request(self.roles[c], **kw) as m:
-                        entered = True
-                        self.log.append(f"y:{c}:{self.oid(m)}")
-                        self.run_block(body)
+                    if self.n_req % 3 == 0:
+                        # the documented other way to make a request: through a handle (`with ctx() as cx:`), whose
+                        # block is the life-time of the request
+                        with self.ctx() as cx:
+                            m = cx.request(self.roles[c], **kw)
+                            entered = True
+                            self.log.append(f"y:{c}:{self.oid(m)}")
+                            self.run_block(body)
+                    else:
+                        with self.ctx.request(self.roles[c], **kw) as m:
+                            entered = True
+                            self.log.append(f"y:{c}:{self.oid(m)}")
+                            self.run_block(body)
                 finally:
                     if entered:
                         self.log.append(f"r:{c}")
